@@ -11,7 +11,8 @@ THEOREMS = ['C06_gpu_threads_cover', 'C06_lane_independent', 'C06_release_order_
             'C06_options_irrelevant',
             'C06_buf_zero_delay_identity', 'C06_buf_zero_delay_overflow', 'C06_buf_zero_delay_nonmonotone_refuted', 'C06_wexec_alias_id',
             'C06_wave_strip_forks_irrelevant', 'C06_wave_strip_forks_polfree', 'C06_wave_strip_nonmonotone_refuted', 'C06_wavesim_options_irrelevant',
-            'C06_dataset_selection', 'C06_dataset_selection_lanes']
+            'C06_dataset_selection', 'C06_dataset_selection_lanes',
+            'C06_launcher_source_is_model', 'C06_launcher_source_nonvacuous']
 COLS = [3, 4, 5, 6, 7, 10]
 
 
@@ -338,6 +339,8 @@ def wave_wide(rng, k=None):
 
 def run(ck):
     if THEOREMS:
+        from vcheck import gen_all
+        gen_all.generate(['LaunchSrc'])     # tie T for the launcher: regenerated before the build (obligation recorded by launch_corr.run)
         ck.prove('C06', THEOREMS)
     rng = random.Random(ck.seed * 7919 + 6)
     nrng = np.random.default_rng(ck.seed + 6)
